@@ -1,7 +1,7 @@
 """C04 — decoding arbitrary bytes is memory-safe, terminates, and reports consistently."""
 import collections, re
 from .. import build, core, genmod, bundle, gfind, mutate
-from . import c01
+from . import c01, l1per
 
 DEC = {"der": "ber", "uper": "uper", "oer": "oer", "xer": "xer", "cxer": "xer"}
 
@@ -62,11 +62,12 @@ def run(ctx):
             if pairs:
                 n, syn = ctx.rng.choice(pairs)
                 add(n, syn, d, "random")
-        outs, crashes = ctx.run_c_bisect(exe, lines, timeout=900)
+        outs, crashes = ctx.run_c_parallel(exe, lines, timeout=900, env={"VERIF_LINE_TIMEOUT": "1"})
         for l, o, (n, syn, size, kind) in zip(lines, outs, lmeta):
             stats["cases"] += 1; stats["kind:" + kind] += 1
             why = None
-            if o is None or o.startswith("CRASH"): why = "crash: " + str(o)[:160]
+            if o == "HANG": why = "hang: decoder does not return"
+            elif o is None or o.startswith("CRASH"): why = "crash: " + str(o)[:300]
             else:
                 mm = re.match(r"(ok|more|fail) (\d+) ", o)
                 if not mm: why = "bad return code / output: " + o[:80]
@@ -89,6 +90,13 @@ def run(ctx):
         txt, n, l, o, why, syn = f
         if "INTEGER_decode_oer" in o or ("INTEGER_oer.c" in o):
             if ctx.match_finding(lambda k: k["id"] == "F5"): continue
+        if o == "HANG" and syn == "der" and "80" in l:
+            if ctx.match_finding(lambda k: k["id"] == "F141"): continue
+        if "heap-buffer-overflow" in o and "INTEGER_decode_oer" in o:
+            if ctx.match_finding(lambda k: k["id"] == "F5"): continue
+        if "LeakSanitizer" in o and syn == "oer":
+            tfe = gfind.features(dict(_types_of(txt)).get(n, {"k": "NULL"}), dict(_types_of(txt))) if False else None
+            if ctx.match_finding(lambda k: k["id"] == "F53"): continue
         if "UniversalString.c:100" in o and "left shift" in o:
             if ctx.match_finding(lambda k: k["id"] == "F50"): continue
         if "OCTET_STRING.c:587" in o and "shift exponent" in o:
@@ -111,6 +119,8 @@ def run(ctx):
         ctx.violation(f"C04: decoding arbitrary bytes misbehaves for type {n} ({syn}): {why} on {l[:120]}",
                       {"module": txt, "type": n, "op": l, "c_output": o, "why": why})
     ctx.log("C04:", {k: v for k, v in stats.items() if not k.startswith("kind")}, "failures", len(fails), "unexplained", len(unexplained))
+    # K leg for the readers whose in-bounds theorems are audited here
+    l1per.run(ctx)
 
 def replay(ctx, path):
     c01.replay(ctx, path)
